@@ -73,6 +73,18 @@ class CacheModel:
 
     def handler_covers(self, node, names=('Exception', 'BaseException', None)):
         """is the node inside the body of a try with a handler that catches one of ``names``?"""
+        # with contextlib.suppress(X): ...   is   try: ... except X: pass
+        cur = node
+        while id(cur) in self.parents:
+            par = self.parents[id(cur)]
+            if isinstance(par, ast.With) and any(cur is s_ for s_ in par.body):
+                for item in par.items:
+                    ce = item.context_expr
+                    if isinstance(ce, ast.Call) and (call_name(ce) or '').split('.')[-1] == 'suppress':
+                        ts = [unparse(a) for a in ce.args]
+                        if any(t in names for t in ts):
+                            return True, ts
+            cur = par
         for tr, in_body in self.enclosing_tries(node):
             if not in_body:
                 continue
@@ -111,6 +123,13 @@ class CacheModel:
                 if e.value is not None and self.sym(e.value):
                     k = self.kind(e.value)
                     out.append(dict(ev=k, sym=e.value, call=c, eff=e))
+                    if k == 'hash':
+                        # hashlib.sha1(data) hashes data like a first update(data)
+                        data = [a for a in c.args if not (isinstance(a, ast.Constant) and isinstance(a.value, str) and nm.endswith('.new'))]
+                        if nm.endswith('.new'):
+                            data = c.args[1:]
+                        if data:
+                            out.append(dict(ev='hash-update', sym=e.value, arg=data[0], eff=e))
                     continue
                 if isinstance(f, ast.Attribute) and f.attr == 'update' and self.sym(f.value) and self.kind(f.value) == 'hash':
                     out.append(dict(ev='hash-update', sym=f.value, arg=c.args[0] if c.args else None, eff=e))
@@ -131,7 +150,7 @@ class CacheModel:
             elif e.kind == 'store_attr' and e.name in ('pack_impl', 'unpack_impl') and canon(e.obj) in ('self.pkt_class',):
                 out.append(dict(ev='install', attr=e.name, value=e.value, eff=e))
             elif e.kind == 'setattr' and canon(e.obj) == 'self.pkt_class':
-                out.append(dict(ev='install', attr=canon(e.name), value=e.value, eff=e))
+                out.append(dict(ev='install', attr=e.name.value if isinstance(e.name, ast.Constant) and isinstance(e.name.value, str) else canon(e.name), value=e.value, eff=e))
         return out
 
     def cookie_guards(self, p):
